@@ -3,7 +3,7 @@
      sem_eqv (code_sem fb) (ds_sem ds)], hence equal [valid_b]. *)
 From Coq Require Import ZArith List Bool Arith Lia String.
 From SP Require Import Design.Flat Design.Sem Design.SemEqv Design.DocSem Design.DocSemProofs Design.DocSemPlain
-     Front.Trials Front.CreateFlat Front.PlainInput Front.PlainT2 Front.PlainT2Flat Front.PlainT2Main Encode.CodeSem.
+     Front.Trials Front.CreateFlat Front.PlainInput Front.PlainT2 Front.PlainT2Flat Front.PlainT2Main Encode.Compile Encode.CodeSem.
 Import ListNotations.
 Local Open Scope nat_scope.
 Local Open Scope list_scope.
@@ -84,3 +84,46 @@ Corollary plain_t2_valid : forall p ci fb ds,
   plain_input p = Some ci -> t2_guard p = true -> create_flat ci = FOk fb -> doc_sem p = Ok ds ->
   forall s, valid_b (code_sem fb) s = valid_b (ds_sem ds) s.
 Proof. intros p ci fb ds H1 H2 H3 H4. apply sem_eqv_valid. eapply plain_t2; eauto. Qed.
+
+(** * the fragment F1 of the compilation theorem
+    [in_f1] asks for k > 0 on AtLeastKInARow / ExactlyKInARow *)
+Definition kpos_b (c : pcons) : bool :=
+  match c with PKRow DocSem.RAtLeast k _ | PKRow DocSem.RExactlyRow k _ => 0 <? k | _ => true end.
+
+Definition t2e_guard (p : program) : bool :=
+  t2_guard p && match p_main p with PCross _ _ cs _ => forallb kpos_b cs | _ => false end.
+
+Theorem plain_t2_in_f1 : forall p ci fb,
+  plain_input p = Some ci -> t2e_guard p = true -> create_flat ci = FOk fb ->
+  in_f1 fb = true /\ 0 < Compile.T fb.
+Proof.
+  intros p ci fb Hin Hg Hfb. unfold t2e_guard in Hg. apply andb_true_iff in Hg. destruct Hg as [Hg Hkb].
+  unfold plain_input in Hin. unfold t2_guard in Hg.
+  destruct (p_main p) as [design crossing cs rcc| | | |] eqn:Hmain; try discriminate.
+  unfold plain_input_of in Hin.
+  destruct (all_opt (map (fun f => match fm p f with Ok fd => plain_factor fd | _ => None end) design)) as [fds|] eqn:Hfds; [|discriminate].
+  destruct (all_opt (map (fpos design) crossing)) as [cr|] eqn:Hcr; [|discriminate].
+  destruct (all_opt (map (plain_constraint p design) cs)) as [ics|] eqn:Hics; [|discriminate].
+  destruct (plain_fds p design fds Hfds) as [Hsimple ->]. destruct (plain_cr design crossing cr Hcr) as [-> Hpos].
+  apply all_opt_some in Hics.
+  rewrite !andb_true_iff in Hg. destruct Hg as [[[[G1 G2] G3] G4] G5].
+  assert (Hne : crossing <> []) by (destruct crossing; [discriminate|discriminate]).
+  set (ef := rcc && existsb (fun n => 0 <? n)
+                      match map (pos design) crossing with [] => [] | _ => [plain_exclusions (map (mkff p) design) (map (pos design) crossing) (excluded_levels ics)] end) in *.
+  assert (Eci : ci = the_ci p design crossing ics rcc ef).
+  { inversion Hin. unfold the_ci. destruct crossing; [congruence|]. reflexivity. }
+  subst ci. rewrite forallb_forall in G4.
+  assert (Hfd : forall d, In d design -> exists levels, plevels p d = levels /\ nonempty levels = true /\ nodup_names_b (map fst levels) = true).
+  { intros d Hd. specialize (G4 d Hd). unfold plevels, fd_of. destruct (fm p d) as [fd| |]; try discriminate.
+    destruct (pf_kind fd) as [levels| |]; try discriminate. apply andb_true_iff in G4. exists levels. tauto. }
+  assert (Hnames : forall d, In d design -> NoDup (map fst (plevels p d))).
+  { intros d Hd. destruct (Hfd d Hd) as [levels [-> [_ H]]]. apply nodup_names_b_sound. exact H. }
+  assert (HndD : NoDup design) by (apply nodup_nat_b_sound; exact G1).
+  assert (HndC : NoDup crossing) by (apply nodup_nat_b_sound; exact G2).
+  assert (Hlev : forall d, In d design -> 0 < nlv p d).
+  { intros d Hd. destruct (Hfd d Hd) as [levels [E [H _]]]. unfold nlv. rewrite E. destruct levels; [discriminate|cbn; lia]. }
+  assert (Hk : Forall kpos cs).
+  { apply Forall_forall. intros c Hc. rewrite forallb_forall in Hkb. specialize (Hkb c Hc). unfold kpos_b in Hkb. unfold kpos.
+    destruct c as [[] k tg| | | | | | |]; try exact I; apply Nat.ltb_lt; exact Hkb. }
+  eapply (plain_flat_in_f1 p design crossing cs rcc ics ef); eassumption.
+Qed.
